@@ -38,6 +38,7 @@ type AssertAt struct {
 	Anchor string // e.g. "after call truncateHeaders#0", "before call X#0", "entry"
 	Assume bool
 	Havoc  []Expr // "havoc loc at anchor": rely step for state shared with concurrently running callbacks
+	SetName string // "ghostset $v := e at anchor": ghost assignment executed at the anchor
 }
 
 type FuncContract struct {
@@ -519,9 +520,19 @@ func ParseSpecFile(path string, pkgPath string) (*SpecFile, error) {
 			if !strings.HasPrefix(n, "$") || !strings.HasPrefix(strings.TrimSpace(r2), ":=") {
 				return nil, fmt.Errorf("%s:%d: ghostset wants '$v := expr'", path, it.line)
 			}
+			anchorAt := ""
+			if i := strings.LastIndex(r2, " at "); i >= 0 {
+				// ghostset $v := e at <anchor>: ghost statement executed at a call site
+				anchorAt = strings.TrimSpace(r2[i+4:])
+				r2 = r2[:i]
+			}
 			e, err := ParseExpr(strings.TrimPrefix(strings.TrimSpace(r2), ":="))
 			if err != nil {
 				return nil, fmt.Errorf("%s:%d: %v", path, it.line, err)
+			}
+			if anchorAt != "" {
+				cur.Asserts = append(cur.Asserts, AssertAt{C: Clause{E: e, Src: n + " := " + strings.TrimSpace(r2)}, Anchor: anchorAt, SetName: n})
+				break
 			}
 			cur.GhostSets = append(cur.GhostSets, GhostLoopVar{Name: n, Init: e})
 		case "havoc":
